@@ -624,6 +624,10 @@ func (v *View) checkC04(res *Result) {
 					}
 					if t := v.termAt(a.Inst, a.Ret); t != nil && t.Up < verdictAt {
 						res.viol("C04", "ordemote", "still-leader-after-ordemote-false", fmt.Sprintf("%s ValidateTokenOrDemote returned false at %v but the instance still reports leadership (term %s, running since %v)", a.Inst, a.RetVT, t.Token, t.UpVT), a.Ret)
+						if v.Spec.HasTag("hostile") {
+							// "a leader whose record was tampered with is demoted as in C03/C04"
+							res.viol("C13", "tampered-not-demoted", "tampered-leader-not-demoted:ordemote-false", fmt.Sprintf("%s: ValidateTokenOrDemote saw the tampered record (false at %v) and left the instance leading", a.Inst, a.RetVT), a.Ret)
+						}
 					}
 				}
 				if a.PreFlag {
